@@ -527,7 +527,8 @@ def h5_struct(tree=0, timeout=200, part=None, exclude=(), **kw):
 def _spell(v, k=0):
     """a reference writer that varies the spelling with position k: octal / named / literal escapes and line continuations in strings, white space inside hex strings,
     #xx escapes in names, comments and every end-of-line convention between tokens.  Returns bytes."""
-    SEPS = [b" ", b"\n", b"\r\n", b"\t", b" % c\n", b"\x0c", b"  ", b"%comment (x\r", b" %\r\n"]
+    SEPS = [b" ", b"\n", b"\r\n", b"\t", b" % c\n", b"\x0c", b"  ", b"%comment (x\r", b" %\r\n", b" \x00", b"\n\x00 "]     # NUL is white space (ISO 32000-1 table 1); it follows another white-space byte here because
+    # a NUL directly after a name or keyword is the open finding KF-C01-nul-ws
     if v is None:
         return b"null"
     if v is True or v is False:
